@@ -37,13 +37,13 @@ def main():
     # ---------------- inputs
     pattern = getattr(C.L(), '_language_regexp', None)
     names_in = corpus() + G.BOUNDARY
-    names_in += G.locale_strings(rng, (60000 if big else 12000) * boost, T, pattern)
+    names_in += G.locale_strings(rng, (200000 if big else 12000) * boost, T, pattern)
     small = list(G.small_scope(maxlen=6 if big else (5 if chk.broken else 4)))
     codes = G.code_strings(T, exhaustive3=True)
     terrs = G.territory_strings(T)
-    lang_names = G.name_variants(rng, T, (20000 if big else 3000) * boost)
-    munch_in = G.munch_strings(rng, T, (20000 if big else 3000) * boost)
-    cli_values = G.BOUNDARY + G.locale_strings(rng, (3000 if big else 500) * boost, T, None)
+    lang_names = G.name_variants(rng, T, (60000 if big else 3000) * boost)
+    munch_in = G.munch_strings(rng, T, (60000 if big else 3000) * boost)
+    cli_values = G.BOUNDARY + G.locale_strings(rng, (8000 if big else 500) * boost, T, None)
     paths = G.PATHS + G.GATED_PATHS + ['', '.', '..', '/', '//', '///', 'a/b/../../..', '/..', 'a//b/./c/', './', '../a', 'a/..', '//a/../..']
     paths += [rng.choice(['', '/', '//', './', '../']) + '/'.join(rng.choice(['a', '.', '..', '', 'pl', 'LC_MESSAGES', 'x.po', '.po', 'b.c'])
                                                              for _ in range(rng.randint(1, 6))) for _ in range(2000 if big else 400)]
@@ -51,7 +51,7 @@ def main():
     cases = corpus_cases()
     cases += [(False, None, p, m, [], []) for p in G.PATHS + G.GATED_PATHS for m in ([], ['pl'], ['de'], ['xx'])]
     cases += product if (big or chk.broken) else rng.sample(product, 1500)
-    cases += G.check_cases(rng, (30000 if big else 4000) * boost, T, gated=True)
+    cases += G.check_cases(rng, (150000 if big else 4000) * boost, T, gated=True)
 
     # ---------------- correspondence: real code vs Lean model
     if driver_ok:
